@@ -273,7 +273,10 @@ def parse_header(source: BinaryIO) -> Tuple[OFXHeaderType, str]:
 
         # OFX header is read by nice clean machines, not meatbags -
         # should not contain 💩, 漢字, or what have you.
-        line = source.readline().decode("ascii")
+        # Bytes of the message body may be swept up here (header without
+        # line breaks, body glued to the header); decode leniently - the
+        # header regex only matches ASCII fields anyway.
+        line = source.readline().decode("latin_1")
         if line.strip():
             found_header = True
             break
@@ -302,7 +305,7 @@ def parse_header(source: BinaryIO) -> Tuple[OFXHeaderType, str]:
         # First line is OFXHEADER; need to read next 8 lines for a fixed
         # total of 9 fields required by OFX v1 spec.
         for _ in range(8):
-            rawheader += source.readline().decode("ascii")
+            rawheader += source.readline().decode("latin_1")
 
         header, header_end_offset = OFXHeaderV1.parse(rawheader)
 
